@@ -133,7 +133,10 @@ def opExt : OpFn := fun view inp out => do
           | some w => if w == value then none else some "C06: raw value is not the extension value byte for byte"
           | none => none
         else if !hasContent && kind != "ocspNoCheck" then some "C08: an extension without content was emitted"
-        else if (X509.decodeDer value).isNone && hasContent && !(e.content.str.startsWith "!binary:") then some "C07: extension value is not a single strictly decodable DER value"
+        else if (X509.decodeDer value).isNone && hasContent && !(e.content.str.startsWith "!binary:") then
+          -- bytes that are no DER value are in particular not the DER encoding of AdmissionSyntax
+          (if kind == "admission" && view == "C16" then some "C16: admission is not the AdmissionSyntax of the configured content (not a DER value)"
+           else some "C07: extension value is not a single strictly decodable DER value")
         else specContent e pathLenCfg value subjBits issuerBits
       else if stage == "overrideNeeded" then none
       else if !hasContent && e.raw.isEmpty && kind != "ocspNoCheck" && kind != "custom" then some "C08: an extension without content must fail with 'need override', not otherwise"
